@@ -480,7 +480,7 @@ pub fn check_def() -> PropertyCheck {
   PropertyCheck {
     id: "C08",
     scenarios: vec![Box::new(C08)],
-    runs: (150_000, 30_000_000),
+    runs: (300_000, 30_000_000),
     rule: "case = source (interval, interval_at, timer, timer_at with periods/delays {0,1,3,10}ms and instants before/at/after now; from_future(_result), from_stream(_result) over scripted futures/streams: ready, pending-k-polls, pending-until-released, error at i) x local|shared scheduler x either a prompt executor (exact-time oracle) or a script of run-task-#k / advance / jump / release / spurious-poll (lower-bound oracle) followed by quiescence; non-trivial = scripted clock or spurious poll or a jump over >=2 deadlines",
     assumptions: vec!["timer model: deadline fixed at creation, never early (as futures-time/async-io)"],
   }
